@@ -3,6 +3,7 @@
 package rules
 
 import (
+	"go/types"
 	"sort"
 
 	"jetverif/an"
@@ -47,4 +48,8 @@ func IDs() []string {
 var commonTrusted = []string{
 	"go/parser, go/types, golang.org/x/tools v0.29.0 (go/packages, go/cfg) — the front end the checker reads the source with",
 	"the Go standard library and github.com/CloudyKit/fastprinter behave as documented (their source is not analysed)",
+}
+
+func isErrorType(t types.Type) bool {
+	return t != nil && types.Identical(t, types.Universe.Lookup("error").Type())
 }
